@@ -97,7 +97,11 @@ template <class E, template <class, class, class> class Algo = TbfOpenmpAlgorith
         // a third of the runs build the executor while fewer threads are configured than at execute() time (it must grow its per-thread kernels)
         vsched::configure(threadsMayChange && s.seed % 3 == 0 ? 1 : s.threads, s.policy, s.seed);
         {
-            auto algo = std::make_unique<Algo<Real, typename E::CheckedPoly, typename E::Space>>(*pr.cfg, c.upper);
+            // a quarter of the runs hand the executor a user-built kernel object (lvalue: the copy path) instead of letting it build one
+            using AlgoT = Algo<Real, typename E::CheckedPoly, typename E::Space>;
+            const typename E::CheckedPoly userKernel(*pr.cfg);
+            auto algo = (s.seed % 4 == 1) ? std::make_unique<AlgoT>(*pr.cfg, userKernel, c.upper) : std::make_unique<AlgoT>(*pr.cfg, c.upper);
+            if (s.seed % 4 == 1) res.ev("executors-built-from-a-user-kernel");
             vsched::configure(s.threads, s.policy, s.seed);
             algo->execute(*pr.tree);
         }
@@ -142,7 +146,10 @@ template <class E, template <class, class, class> class AlgoTsm = TbfOpenmpAlgor
         E::CheckedPoly::globalCtx() = &rc;
         vsched::configure(threadsMayChange && s.seed % 3 == 0 ? 1 : s.threads, s.policy, s.seed);
         {
-            auto algo = std::make_unique<AlgoTsm<Real, typename E::CheckedPoly, typename E::Space>>(*pr.cfg, c.upper);
+            using AlgoT = AlgoTsm<Real, typename E::CheckedPoly, typename E::Space>;
+            const typename E::CheckedPoly userKernel(*pr.cfg);
+            auto algo = (s.seed % 4 == 1) ? std::make_unique<AlgoT>(*pr.cfg, userKernel, c.upper) : std::make_unique<AlgoT>(*pr.cfg, c.upper);
+            if (s.seed % 4 == 1) res.ev("executors-built-from-a-user-kernel");
             vsched::configure(s.threads, s.policy, s.seed);
             algo->execute(*pr.tree);
         }
@@ -241,7 +248,7 @@ template <class E> Segment c08ExecSegment(long nQ, long nT) {
     s.run = [=](long kk, uint64_t seed, bool th, Result& res) {
         vh::Rng r(vh::mix(seed ^ 0xC08E, uint64_t(kk) * 4 + D));
         auto pickSched = [&] { return Sched{int(1 + r.below(8)), int(r.below(vsched::NB_POLICIES)), r.next() % 100000}; };
-        const long envBs = 1 + long(vh::mix(seed, kk) % 7);
+        const long envBs = tbx::envBlockSize(vh::mix(seed, kk));
         auto groupingsFor = [&](long n) { auto b = tbx::blockSizesFor(n, n <= 10); if (!th && b.size() > 8) { std::vector<long> c2{b[0], b[b.size() - 3], b[b.size() - 2]}; for (int i = 0; i < 3; ++i) c2.push_back(b[r.below(b.size())]); b = c2; } b.push_back(-1); b.push_back(-2); return b; };
         long groupings = 0;
         if (kk % 2 == 0) {
@@ -366,10 +373,10 @@ template <class E> Segment c12ExecSegment(long nQ, long nT) {
             { TbfAlgorithm<Real, typename E::PolyKernel, typename E::Space> a(*seq.cfg, c.upper); a.execute(*seq.tree); }
             const auto ref = fmm::snapshotTree<E>(*seq.tree, N);
             const auto& hs = fmm::flagHistories();
-            const size_t nh = th ? 24 : 6;
+            const size_t nh = th ? 24 : 8;
             res.desc = fmm::confDesc<E>(c) + " executor=TbfOpenmpAlgorithm history=staged x" + vh::str(nh);
             for (size_t q = 0; q < nh; ++q) {
-                const auto& h = hs[(q == 0) ? hs.size() - 1 : r.below(hs.size())];
+                const auto& h = fmm::pickHistory(q, r);
                 const auto sd = pick(1)[0];
                 fmm::PolyRun<E, typename E::PolyKernel> pr; pr.build(c);
                 vsched::configure(sd.threads, sd.policy, sd.seed);
@@ -453,10 +460,10 @@ template <class E> Segment c12ExecSegment(long nQ, long nT) {
             { TbfAlgorithmTsm<Real, typename E::PolyKernel, typename E::Space> a(*seq.cfg, c.upper); a.execute(*seq.tree); }
             const auto ref = seq.snapshot();
             const auto& hs = fmm::flagHistories();
-            const size_t nh = th ? 24 : 6;
+            const size_t nh = th ? 24 : 8;
             res.desc = fmm::tsmDesc<E>(c) + " executor=TbfAlgorithmTsm+TbfOpenmpAlgorithmTsm history=staged x" + vh::str(nh);
             for (size_t q = 0; q < nh; ++q) {
-                const auto& h = hs[(q == 0) ? hs.size() - 1 : r.below(hs.size())];
+                const auto& h = fmm::pickHistory(q, r);
                 std::string hs2; for (int st : h) hs2 += vh::str(st) + " ";
                 { fmm::TsmPolyRun<E> pr; pr.build(c); TbfAlgorithmTsm<Real, typename E::PolyKernel, typename E::Space> a(*pr.cfg, c.upper); for (int st : h) a.execute(*pr.tree, st);
                   if (!(pr.snapshot() == ref)) res.fail("c12:staged-differs-from-full", "TbfAlgorithmTsm stages " + hs2); }
@@ -520,11 +527,21 @@ template <class E> Segment c18OmpSegment(long nQ, long nT, bool tsan) {
         for (const auto& sd : sc) {
             fmm::PolyRun<E, K> pr; pr.build(c);
             vsched::configure(sd.threads, sd.policy, sd.seed);
-            auto algo = std::make_unique<TbfOpenmpAlgorithm<Real, K, typename E::Space>>(*pr.cfg, c.upper);
+            const K userKernel(*pr.cfg);   // a third of the runs: per-worker copies made from a (fresh, unused) user-built counter kernel
+            auto algo = (sd.seed % 3 == 1) ? std::make_unique<TbfOpenmpAlgorithm<Real, K, typename E::Space>>(*pr.cfg, userKernel, c.upper) : std::make_unique<TbfOpenmpAlgorithm<Real, K, typename E::Space>>(*pr.cfg, c.upper);
             algo->execute(*pr.tree);
             if (!(fmm::snapshotTree<E>(*pr.tree, N) == ref)) res.fail("c18:wrapped-results-differ", "counter<P-poly> under " + schedStr(sd));
             fmm::mergeAndCheck<decltype(*algo), K>(*algo, e, 1, r, res, "c18", "schedule " + schedStr(sd));
             if (r.coin(0.3)) { algo->execute(*pr.tree); fmm::mergeAndCheck<decltype(*algo), K>(*algo, e, 2, r, res, "c18", "two executes, schedule " + schedStr(sd)); }
+            else if (sd.threads >= 2 && r.coin(0.45)) {
+                // the same executor used again after the user lowered the number of threads (omp_set_num_threads): what the workers that are
+                // no longer used counted during the first execute() still belongs to the totals (counters are cumulative per executor)
+                const int fewer = 1 + int(r.below(uint64_t(sd.threads - 1)));
+                vsched::configure(fewer, sd.policy, sd.seed + 1);
+                algo->execute(*pr.tree);
+                fmm::mergeAndCheck<decltype(*algo), K>(*algo, e, 2, r, res, "c18", "two executes, threads lowered " + vh::str(sd.threads) + "->" + vh::str(fewer) + " in between, schedule " + schedStr(sd));
+                res.ev("executes-after-lowering-threads");
+            }
             if (r.coin(0.3)) {   // partial operator set on a fresh executor
                 using namespace TbfAlgorithmUtils;
                 const int fl = r.coin() ? (TbfP2M | TbfM2M) : int(1 + r.below(63));
